@@ -129,9 +129,19 @@ def validNmapRange (F : Foreign) (spec : List Char) : R Bool :=
   | .ok [] => .error .other
   | .error e => if e = .type_ ∨ e = .value ∨ e = .addrFormat then .ok false else .error e
 
-/-- `itertools.islice(iter_nmap_range(spec), fuel)` for one target spec -/
+/-- `itertools.islice(iter_nmap_range(spec), fuel)` for one target spec, for `fuel ≥ 1`: the
+    generator has been advanced at least once, so the parse phase has run.  (`fuel = 0` is outside
+    the domain of this function — the Python generator runs nothing before the first `next()` —
+    and is `isliceNmapRange` below; audit 2b finding 2.) -/
 def iterNmapRange (F : Foreign) (fuel : Nat) (spec : List Char) : R (List Addr) :=
   parseTargetSpec F fuel spec
+
+/-- `list(itertools.islice(iter_nmap_range(spec), fuel))` for EVERY `fuel`: `islice(gen, 0)`
+    never calls `next()`, the body of the generator (nmap.py:99-113, and
+    `_parse_nmap_target_spec` behind it) does not start, so nothing is parsed and nothing raised:
+    `list(islice(iter_nmap_range('bad'), 0)) == []` -/
+def isliceNmapRange (F : Foreign) (fuel : Nat) (spec : List Char) : R (List Addr) :=
+  if fuel = 0 then .ok [] else iterNmapRange F fuel spec
 
 /-- `iter_nmap_range(*specs)`: the specs one after the other; the yields before the first
     failing spec are kept (`fuel` bounds each spec separately) -/
